@@ -271,7 +271,7 @@ def dbl_bits(x):
 
 def main():
     ck = Check("C19", "proof")
-    ck.lean_stage(["VelaVerif.Props.C19"])
+    ck.lean_stage(["VelaVerif.Props.C19", "VelaVerif.Props.C19Src"])
     fp, np = _load()
     from ethosu.vela import lut as lutmod
     from ethosu.vela import scaling
